@@ -11,7 +11,7 @@ MC_QUICK = [("typed", dict(fns='"f"', pnames="", rets="RetsTyped", getters="GetT
 MC_THOROUGH = [("typed", dict(fns='"f", "g"', pnames='"p"', rets="RetsTyped", getters="GetTyped", maxexp=1, ns="1, 2", maxcalls=3)),
                ("typed2", dict(fns='"f"', pnames="", rets="RetsTyped", getters="GetTyped", maxexp=2, ns="1", maxcalls=3)),
                ("core", dict(maxcalls=3)),
-               ("scopes", dict(scopes="ScopesGS", fns='"f"', ns="1", maxexp=2, maxcalls=3, rets="Rets2"))]
+               ("scopes", dict(scopes="ScopesGS", fns='"f"', ns="1", maxexp=1, maxcalls=3, rets="Rets2", getters="GetTyped"))]
 GEN = [("bfs", 5, None, None, dict(fns='"f"', ns="1", maxexp=1, maxcalls=2, rets="RetsTyped", getters="GetTyped")),
        ("sim", 14, 12, 500, dict(pnames='"p", "q"', vals="Vals3", rets="RetsTyped", getters="GetTyped", maxexp=3, ns="0, 1, 2", maxcalls=5)),
        ("simout", 14, 8, 300, dict(fns='"f"', pnames='"p"', rets="Rets3", getters="GetTyped", onames='"x"', odata="Raw2", maxexp=3, ns="1, 2", maxcalls=4)),
@@ -162,7 +162,7 @@ def sweep(rng, quick):
     # (2) return values: every return type x every getter
     rvals = [enc_int(c, v) for c, v in ints] + ["B|0", "B|1", "P|v|1", "P|c|2", "P|f|1", "P|f|0", "S|6162", "S|", "D|fin|0|12|fin|0|0", "D|inf|1|0|fin|0|0", "-"]
     for r in rvals:
-        gs = getters if not quick else rng.sample(getters, 5)
+        gs = getters if (not quick or r == "-") else rng.sample(getters, 5)
         if r[0] == "I" and not quick:
             gs = [g for g in getters if g.split("/")[0] in INT_GETTER] + rng.sample(getters, 4)
         for g in ["value"] + gs:
